@@ -1,6 +1,8 @@
-import FiberModel.C14.Inv
+import FiberModel.C14.Trace
+import FiberModel.C14.Directive
 /-
-C14 — property theorems (only). Helper lemmas: HeapLemmas.lean, Lemmas.lean, Inv.lean.
+C14 — property theorems (only). Helper lemmas: HeapLemmas.lean, Lemmas.lean, Inv.lean, Trace.lean,
+Directive.lean.
 
 Setting. `Reachable cfg g`: `g = run cfg (G.init ts uts reqs) evs` for *any* initial clocks, any list of
 requests (each carrying the response its origin handler will produce), and any list of events
@@ -18,6 +20,52 @@ def Reachable (cfg : Config) (g : G) : Prop :=
 theorem reachable_inv {cfg : Config} (hmb : cfg.maxBytes < 2 ^ 63) {g : G} (h : Reachable cfg g) : Inv cfg g := by
   rcases h with ⟨ts, uts, reqs, evs, rfl⟩
   exact run_inv hmb evs (init_inv cfg ts uts reqs)
+
+
+theorem reachable_exec {cfg : Config} {g : G} (h : Reachable cfg g) (e : Ev) : Reachable cfg (exec cfg g e) := by
+  rcases h with ⟨ts, uts, reqs, evs, rfl⟩
+  exact ⟨ts, uts, reqs, evs ++ [e], by simp [run, List.foldl_append]⟩
+
+/-! ## concrete reachable states used by the non-vacuity examples below -/
+
+def exCfg : Config :=
+  { ext := true, stTTL := true, maxBytes := 5, expiration := 2, storeHeaders := true, cacheControl := false, methods := [] }
+def exReqS (status : Nat) (key body : Bytes) (inv : Bool) (cc : Bytes) : Req :=
+  { method := b "GET", keyMat := key, cc := cc, inv := inv, skip := false, expGen := none,
+    resp := ⟨status, body, b "text/plain", [], [(b "X-A", b "1"), (b "Keep-Alive", b "5")]⟩ }
+def exReq (key body : Bytes) (inv : Bool) (cc : Bytes) : Req := exReqS 200 key body inv cc
+def steps (t n : Nat) : List Ev := List.replicate n (.step t)
+theorem exCfg_mb : exCfg.maxBytes < 2 ^ 63 := by decide
+
+/-- sequential: miss, hit (transparent, stored headers without the ignored one), then expiry → miss -/
+def exSeq : G := run exCfg (G.init 100 100 [exReq [47, 97] [65, 66] false [], exReq [47, 97] [67] false [], exReq [47, 97] [68] false []])
+  (steps 0 8 ++ [.tickTs 1, .tickUts 1] ++ steps 1 8 ++ [.tickTs 1] ++ steps 2 8)
+theorem exSeq_reach : Reachable exCfg exSeq := ⟨_, _, _, _, rfl⟩
+example : (exSeq.threads.map fun th => th.out.map fun o => (o.xcache, o.body, o.headers.length)) =
+    [some (.miss, [65, 66], 2), some (.hit, [65, 66], 1), some (.miss, [68], 2)] := by decide
+example : exSeq.sh.stored = 1 ∧ exSeq.sh.heap.live.length = 1 := by decide
+
+/-- interleaved: both requests miss (A: lookup, B: lookup, A: store, B: store), the second store finds a
+    full cache and evicts; a third request with the invalidator firing deletes the entry; a fourth,
+    `No-Cache`, request is not served from the cache -/
+def exConc : G := run exCfg (G.init 100 100 [exReq [47, 97] [65, 66, 67] false [], exReq [47, 97] [68, 69, 70] false [],
+    exReq [47, 97] [71] true [], exReq [47, 97] [72] false (b "No-Cache")])
+  (steps 0 3 ++ steps 1 3 ++ steps 0 5 ++ steps 1 5 ++ steps 2 8 ++ steps 3 8)
+theorem exConc_reach : Reachable exCfg exConc := ⟨_, _, _, _, rfl⟩
+set_option maxRecDepth 20000 in
+example : (exConc.threads.map fun th => th.out.map fun o => (o.xcache, o.body)) =
+    [some (.miss, [65, 66, 67]), some (.miss, [68, 69, 70]), some (.miss, [71]), some (.miss, [72])] := by decide
+
+/-- thread 0 is inside the first critical section, thread 1 waits for the mutex -/
+def exWait : G := run exCfg (G.init 100 100 [exReq [47, 97] [65] false [], exReq [47, 97] [66] false []]) (steps 0 2 ++ steps 1 1)
+theorem exWait_reach : Reachable exCfg exWait := ⟨_, _, _, _, rfl⟩
+/-- a thread waiting for the mutex is disabled while another one is inside the section -/
+example : (step exCfg exWait 1).isSome = false := by decide
+
+/-- `/a` is cached; request 1, for which the invalidator fires, stands inside the first critical section -/
+def exInv : G := run exCfg (G.init 100 100 [exReq [47, 97] [65, 66] false [], exReq [47, 97] [67] true [],
+    exReqS 500 [47, 97] [68] false []]) (steps 0 8 ++ steps 1 2)
+theorem exInv_reach : Reachable exCfg exInv := ⟨_, _, _, _, rfl⟩
 
 /-! ## 1. heap_index_consistent -/
 
@@ -120,6 +168,16 @@ theorem bytes_accounted {cfg : Config} (hmb : cfg.maxBytes < 2 ^ 63) {g : G} (h 
   let hi := (reachable_inv hmb h).sh
   ⟨hi.acc, hi.bound⟩
 
+example : Accounted exCfg exConc.sh := bytes_accounted exCfg_mb exConc_reach
+/- What is *not* claimed (and false for the code): `storedBytes` = bytes actually held. A key that is
+    stored again while its old heap entry is still there (refresh by a `no-cache` request, two requests
+    that both missed, an entry the storage expired by itself) is counted twice until the stale heap
+    entry is evicted: here `storedBytes = 2` while the storage holds one body of 1 byte. The count
+    errs on the safe side only (`held_never_exceeds_maxbytes`). -/
+set_option maxRecDepth 20000 in
+example : exConc.sh.stored = 2 ∧ exConc.sh.heap.live.length = 2 ∧ exConc.sh.store.length = 1 ∧
+    exConc.sh.store.held 100 = 1 := by decide
+
 /-- "The bytes held never exceed MaxBytes": the body sizes the storage holds (whatever the storage's
     clock says about their expiry) sum to at most `storedBytes`, hence to at most MaxBytes. -/
 theorem held_never_exceeds_maxbytes {cfg : Config} (hmb : cfg.maxBytes < 2 ^ 63) (hpos : cfg.maxBytes > 0) {g : G}
@@ -129,15 +187,25 @@ theorem held_never_exceeds_maxbytes {cfg : Config} (hmb : cfg.maxBytes < 2 ^ 63)
   have h2 := hi.bound hpos
   exact ⟨h1, by omega⟩
 
+example : exConc.sh.store.held 100 ≤ exConc.sh.stored ∧ exConc.sh.store.held 100 ≤ exCfg.maxBytes :=
+  held_never_exceeds_maxbytes exCfg_mb (by decide) exConc_reach 100
+
 /-- every stored response is tracked by a live heap entry of its key and size (MaxBytes > 0) -/
 theorem stored_items_tracked {cfg : Config} (hmb : cfg.maxBytes < 2 ^ 63) (hpos : cfg.maxBytes > 0) {g : G}
     (h : Reachable cfg g) : Tracked g.sh :=
   (reachable_inv hmb h).sh.tracked hpos
 
+example : Tracked exConc.sh := stored_items_tracked exCfg_mb (by decide) exConc_reach
+set_option maxRecDepth 20000 in
+example : exConc.sh.store ≠ [] := by decide
+
 /-- without a limit the heap is never touched -/
 theorem heap_unused_without_limit {cfg : Config} (hmb : cfg.maxBytes < 2 ^ 63) (h0 : cfg.maxBytes = 0) {g : G}
     (h : Reachable cfg g) : g.sh.heap = Heap.empty :=
   (reachable_inv hmb h).sh.unused h0
+
+example : (run { exCfg with maxBytes := 0 } (G.init 100 100 [exReq [47, 97] [65, 66] false []]) (steps 0 8)).sh.heap = Heap.empty :=
+  heap_unused_without_limit (by decide) rfl ⟨_, _, _, _, rfl⟩
 
 /-! ## 3. no_panic_any_schedule, no_deadlock -/
 
@@ -146,6 +214,25 @@ theorem no_panic_any_schedule {cfg : Config} (hmb : cfg.maxBytes < 2 ^ 63) {g : 
   intro hp
   have := (reachable_inv hmb h).th t th ht
   simp [ThOK, hp] at this
+
+set_option maxRecDepth 20000 in
+example : (exConc.threads[1]?.getD default).pc ≠ .panicked :=
+  no_panic_any_schedule exCfg_mb exConc_reach 1 _ (getElem?_getD_default (by decide))
+
+/-- `mux` is a mutex: at most one request is inside a critical section (the only places where the
+    storage, the heap and `storedBytes` are read or written), and it is the recorded holder. -/
+theorem mutual_exclusion {cfg : Config} (hmb : cfg.maxBytes < 2 ^ 63) {g : G} (h : Reachable cfg g)
+    (t u : Nat) (th thu : Thread) (ht : g.threads[t]? = some th) (hu : g.threads[u]? = some thu)
+    (hpt : th.pc = .sec1 ∨ th.pc = .sec2) (hpu : thu.pc = .sec1 ∨ thu.pc = .sec2) : t = u ∧ g.mux = some t := by
+  have hm := (reachable_inv hmb h).mux.1
+  have h1 := hm t th ht hpt
+  have h2 := hm u thu hu hpu
+  rw [h1] at h2
+  exact ⟨Option.some.inj h2, h1⟩
+
+example : exWait.mux = some 0 :=
+  (mutual_exclusion exCfg_mb exWait_reach 0 0 _ _ (getElem?_getD_default (by decide)) (getElem?_getD_default (by decide))
+    (by decide) (by decide)).2
 
 /-- whenever some request is unfinished, some thread can take a step -/
 theorem no_deadlock {cfg : Config} (hmb : cfg.maxBytes < 2 ^ 63) {g : G} (h : Reachable cfg g)
@@ -183,20 +270,44 @@ theorem no_deadlock {cfg : Config} (hmb : cfg.maxBytes < 2 ^ 63) {g : G} (h : Re
     | bypass x => simp only [hpc]; rfl
     | wantLock1 => simp only [hpc, hm]; rfl
     | sec1 => have := hi.mux.1 t th ht (Or.inl hpc); rw [hm] at this; cases this
-    | next => simp only [hpc]; rfl
+    | next => simp only [hpc]; split <;> rfl
     | afterNext => simp only [hpc]; split <;> rfl
     | wantLock2 => simp only [hpc, hm]; rfl
     | sec2 => have := hi.mux.1 t th ht (Or.inr hpc); rw [hm] at this; cases this
     | done => exact absurd hpc hnd
     | panicked => simp [ThOK, hpc] at hok
 
-/-! ## 4. hit_is_transparent, never_after_expiry_or_invalidation, no_cache_bypasses_hit -/
+-- thread 1 is blocked on the mutex; the theorem yields a thread that can move (the holder)
+example : ∃ u, (step exCfg exWait u).isSome = true :=
+  no_deadlock exCfg_mb exWait_reach 1 _ (getElem?_getD_default (by decide)) (by decide)
 
-theorem effCType_idem (c : Bytes) : effCType (effCType c) = effCType c := by
-  unfold effCType
-  by_cases h : c.isEmpty = true
-  · simp [h, defaultCType, b]
-  · simp [h]
+/-- No deadlock, no livelock: `g.remaining` (≤ 7 per request) strictly decreases with every step any
+    request takes; while it is positive some request can take a step; when it is 0 every request has
+    been answered. Hence every schedule that keeps running enabled requests ends, after at most
+    7 × #requests steps, with all requests answered. -/
+theorem every_schedule_finishes {cfg : Config} (hmb : cfg.maxBytes < 2 ^ 63) {g : G} (h : Reachable cfg g) :
+    (∀ t g', step cfg g t = some g' → g'.remaining < g.remaining) ∧
+    (0 < g.remaining → ∃ u g', step cfg g u = some g') ∧
+    (g.remaining = 0 → ∀ (t : Nat) (th : Thread), g.threads[t]? = some th → th.pc = .done ∧ th.out ≠ none) := by
+  refine ⟨fun t g' hs => step_remaining hs, ?_, ?_⟩
+  · intro hpos
+    rcases exists_pos_of_sum_pos (fun th : Thread => th.pc.rem) g.threads hpos with ⟨t, th, ht, hrem⟩
+    have hnd : th.pc ≠ .done := by intro hd; simp [hd, Pc.rem] at hrem
+    rcases no_deadlock hmb h t th ht hnd with ⟨u, hu⟩
+    cases hs : step cfg g u with
+    | none => rw [hs] at hu; cases hu
+    | some g' => exact ⟨u, g', hs⟩
+  · intro h0 t th ht
+    have hz := sum_zero_of_all (fun th : Thread => th.pc.rem) g.threads h0 t th ht
+    have hok := (reachable_inv hmb h).th t th ht
+    unfold ThOK at hok
+    cases hpc : th.pc <;> simp only [hpc, Pc.rem] at hz hok <;> try omega
+    rcases hok with ⟨o, ho, _⟩
+    exact ⟨rfl, by rw [ho]; simp⟩
+
+example : 0 < exWait.remaining ∧ exConc.remaining = 0 := by decide
+
+/-! ## 4. hit_is_transparent, never_after_expiry_or_invalidation, no_cache_bypasses_hit -/
 
 /-- everything a hit guarantees, in one statement -/
 theorem hit_justified {cfg : Config} (hmb : cfg.maxBytes < 2 ^ 63) {g : G} (h : Reachable cfg g)
@@ -245,29 +356,12 @@ theorem hit_is_transparent {cfg : Config} (hmb : cfg.maxBytes < 2 ^ 63) {g : G} 
   refine ⟨trivial, trivial, trivial, trivial, ?_⟩
   by_cases hc : cfg.cacheControl = true <;> simp [hc]
 
+-- the second request of `exSeq` is a hit; the theorem applies to it
+example :=
+  hit_is_transparent exCfg_mb exSeq_reach 1 _ _ (getElem?_getD_default (by decide)) (some_getD_default (by decide)) (by decide)
+
 /-- the cache key separates methods: with configured methods free of `_`, equal keys mean equal
     method and equal `KeyGenerator` result ("for the same method and key") -/
-theorem append_sep_inj {x : Nat} : ∀ (a c bs d : List Nat), x ∉ bs → x ∉ d → a ++ x :: bs = c ++ x :: d → a = c ∧ bs = d := by
-  intro a
-  induction a with
-  | nil =>
-    intro c bs d hb hd h
-    cases c with
-    | nil => simp at h; exact ⟨rfl, h⟩
-    | cons y c' =>
-      simp at h
-      exact absurd (by rw [h.2]; simp) hb
-  | cons y a' ih =>
-    intro c bs d hb hd h
-    cases c with
-    | nil =>
-      simp at h
-      exact absurd (by rw [← h.2]; simp) hd
-    | cons z c' =>
-      simp at h
-      rcases ih c' bs d hb hd h.2 with ⟨h1, h2⟩
-      exact ⟨by rw [h.1, h1], h2⟩
-
 theorem key_separates_methods (q1 q2 : Req) (h1 : 95 ∉ q1.method) (h2 : 95 ∉ q2.method)
     (hk : mkKey q1 = mkKey q2) : q1.keyMat = q2.keyMat ∧ q1.method = q2.method := by
   unfold mkKey at hk
@@ -275,6 +369,11 @@ theorem key_separates_methods (q1 q2 : Req) (h1 : 95 ∉ q1.method) (h2 : 95 ∉
   rw [this] at hk
   simp only [List.append_assoc, List.singleton_append] at hk
   exact append_sep_inj _ _ _ _ h1 h2 hk
+
+example : (95 : Nat) ∉ b "GET" ∧ (95 : Nat) ∉ b "HEAD" := by decide
+-- without the hypothesis the key is ambiguous: ("a_B", method "A") and ("a", method "B_A") collide
+example : mkKey { (default : Req) with keyMat := b "a_B", method := b "A" } =
+    mkKey { (default : Req) with keyMat := b "a", method := b "B_A" } := by decide
 
 /-- A cached response is never served at or after its expiration on the cache's clock
     (`ts` read when serving < `ts` of the storing request + its expiration), … -/
@@ -284,11 +383,19 @@ theorem never_after_expiry {cfg : Config} (hmb : cfg.maxBytes < 2 ^ 63) {g : G} 
       o = replay cfg (mkItem cfg thu.req thu.ts idx) th.ts ∧ th.ts < thu.ts + expSecs cfg thu.req :=
   (hit_justified hmb h t th o ht ho hx).2.2.2.2
 
+example :=
+  never_after_expiry exCfg_mb exSeq_reach 1 _ _ (getElem?_getD_default (by decide)) (some_getD_default (by decide)) (by decide)
+-- … and the third request of `exSeq`, two ticks later (= the expiration), is not served from the cache
+example : ((exSeq.threads[2]?.getD default).out.map fun o : Out => o.xcache) = some XCache.miss := by decide
+
 /-- … nor to a request for which the `CacheInvalidator` fires. -/
 theorem never_to_invalidating_request {cfg : Config} (hmb : cfg.maxBytes < 2 ^ 63) {g : G} (h : Reachable cfg g)
     (t : Nat) (th : Thread) (o : Out) (ht : g.threads[t]? = some th) (ho : th.out = some o) (hx : o.xcache = .hit) :
     th.req.inv = false :=
   (hit_justified hmb h t th o ht ho hx).2.2.1
+
+example : (exSeq.threads[1]?.getD default).req.inv = false :=
+  never_to_invalidating_request exCfg_mb exSeq_reach 1 _ _ (getElem?_getD_default (by decide)) (some_getD_default (by decide)) (by decide)
 
 /-- Invalidation, step form: when the thread inside the first section belongs to a request for which
     the invalidator fires and which finds an entry (`manager.get` ≠ nil), the step erases the key
@@ -306,6 +413,51 @@ theorem invalidation_erases_entry {cfg : Config} (hmb : cfg.maxBytes < 2 ^ 63) {
   · rcases sec1_ok hmb hi.sh g.ts g.uts th.req (mkKey th.req) with ⟨o, ho⟩ | ⟨sh', hp, _⟩
     · rw [hr] at ho; cases ho
     · rw [hr] at hp; cases hp
+
+-- `exInv`: the entry of `/a` is there before the step of the invalidating request and gone after it
+example : (exInv.sh.store.lookup (mkKey (exReq [47, 97] [67] true []))).isSome = true ∧
+    ((step exCfg exInv 1).map fun g' => (g'.sh.store.lookup (mkKey (exReq [47, 97] [67] true []))).isSome) = some false := by decide
+
+/-- Invalidation / expiry, trace form: once the storage holds nothing for key `k`, no request for `k`
+    that is still unfinished is answered from the cache, whatever the schedule and the clocks do,
+    until some request stores a response under `k` again (`noStoreOf`: no event of the run is a second
+    critical section of a request with key `k` that ends in `manager.set`). -/
+theorem absent_key_never_hit {cfg : Config} (hmb : cfg.maxBytes < 2 ^ 63) {g : G} (h : Reachable cfg g) (k : Key)
+    (hk : g.sh.store.lookup k = none) (evs : List Ev) (hns : noStoreOf cfg k g evs = true)
+    (t : Nat) (th : Thread) (ht : g.threads[t]? = some th) (hpc : th.pc ≠ .done) (hkey : mkKey th.req = k)
+    (th' : Thread) (o : Out) (ht' : (run cfg g evs).threads[t]? = some th') (ho : th'.out = some o) :
+    o.xcache ≠ .hit := by
+  have hi := reachable_inv hmb h
+  have hq := notHit_of_unfinished hi ht hpc
+  have hkey' : ∀ x, g.threads[t]? = some x → mkKey x.req = k := by
+    intro x hx; rw [ht] at hx; cases hx; exact hkey
+  exact (run_absent hmb evs hi k hk hns t hkey' hq).2 th' o ht' ho
+
+/-- "… never served after its … invalidation": after the first critical section of a request for which
+    the `CacheInvalidator` fired (and which found an entry), every request for the same cache key that
+    has not been answered yet is not answered from the cache in any continuation of the run – any
+    interleaving, any clock advance – in which no response is stored under that key again. -/
+theorem never_after_invalidation {cfg : Config} (hmb : cfg.maxBytes < 2 ^ 63) {g g1 : G} (h : Reachable cfg g)
+    (u : Nat) (thu : Thread) (hu : g.threads[u]? = some thu) (hpcu : thu.pc = .sec1) (hinv : thu.req.inv = true)
+    (hts : g.ts ≥ 2) (hfound : lookup1 cfg g.sh g.uts (mkKey thu.req) ≠ none) (hs : step cfg g u = some g1)
+    (evs : List Ev) (hns : noStoreOf cfg (mkKey thu.req) g1 evs = true)
+    (t : Nat) (th : Thread) (ht : g1.threads[t]? = some th) (hpc : th.pc ≠ .done) (hkey : mkKey th.req = mkKey thu.req)
+    (th' : Thread) (o : Out) (ht' : (run cfg g1 evs).threads[t]? = some th') (ho : th'.out = some o) :
+    o.xcache ≠ .hit := by
+  have hk := invalidation_erases_entry hmb h u thu hu hpcu hinv hts hfound hs
+  have hr1 : Reachable cfg g1 := by
+    have := reachable_exec h (.step u)
+    simpa [exec, hs] using this
+  exact absent_key_never_hit hmb hr1 _ hk evs hns t th ht hpc hkey th' o ht' ho
+
+-- `exInv`, then the invalidating request 1 leaves its first section, then request 2 (same key, origin
+-- status 500, so it stores nothing) runs to its end: it is not served the entry request 0 stored
+set_option maxRecDepth 20000 in
+example : (((run exCfg ((step exCfg exInv 1).getD exInv) (steps 2 8)).threads[2]?.getD default).out.getD default).xcache ≠ .hit :=
+  never_after_invalidation exCfg_mb exInv_reach 1 _ (getElem?_getD_default (by decide)) (by decide) (by decide)
+    (by decide) (by decide) (some_getD_default (by decide)) (steps 2 8) (by decide)
+    2 _ (getElem?_getD_default (by decide)) (by decide) (by decide) _ _
+    (getElem?_getD_default (by decide)) (some_getD_default (by decide))
 
 /-- Hits, step form: the step that serves a hit replays the item the storage holds for the key at
     that moment, unexpired on the storage's clock and on the cache's clock. -/
@@ -339,6 +491,12 @@ theorem hit_replays_current {cfg : Config} (hmb : cfg.maxBytes < 2 ^ 63) {g g' :
     simp [G.setThread, hlt] at ht'; subst ht'
     simp [hnone] at ho
 
+set_option maxRecDepth 20000 in
+example : ∃ g, Reachable exCfg g ∧ (g.threads[1]?.map (·.pc)) = some .sec1 ∧
+    (((step exCfg g 1).getD g).threads[1]?.map fun th => th.out.map (·.xcache)) = some (some .hit) :=
+  ⟨run exCfg (G.init 100 100 [exReq [47, 97] [65, 66] false [], exReq [47, 97] [67] false []]) (steps 0 8 ++ steps 1 2),
+   ⟨_, _, _, _, rfl⟩, by decide, by decide⟩
+
 /-- a request carrying `no-cache` (any letter case) is never answered from the cache -/
 theorem no_cache_bypasses_hit {cfg : Config} (hmb : cfg.maxBytes < 2 ^ 63) {g : G} (h : Reachable cfg g)
     (t : Nat) (th : Thread) (o : Out) (ht : g.threads[t]? = some th) (ho : th.out = some o)
@@ -346,6 +504,19 @@ theorem no_cache_bypasses_hit {cfg : Config} (hmb : cfg.maxBytes < 2 ^ 63) {g : 
   intro hx
   have := (hit_justified hmb h t th o ht ho hx).2.2.2.1
   rw [hnc] at this; cases this
+
+set_option maxRecDepth 20000 in
+example : ((exConc.threads[3]?.getD default).out.getD default).xcache ≠ .hit :=
+  no_cache_bypasses_hit exCfg_mb exConc_reach 3 _ _ (getElem?_getD_default (by decide)) (some_getD_default (by decide)) (by decide)
+
+/-- the same for the RFC 9111 reading of the header (`no-cache` is one of the comma separated directive
+    names of the request's Cache-Control value, any letter case, with or without argument) -/
+theorem rfc_no_cache_never_hit {cfg : Config} (hmb : cfg.maxBytes < 2 ^ 63) {g : G} (h : Reachable cfg g)
+    (t : Nat) (th : Thread) (o : Out) (ht : g.threads[t]? = some th) (ho : th.out = some o)
+    (hnc : isNoCacheReq th.req.cc = true) : o.xcache ≠ .hit :=
+  no_cache_bypasses_hit hmb h t th o ht ho (directive_implies_substring hnc)
+
+example : isNoCacheReq (b "max-age=0,  No-Cache ") = true := by decide
 
 /-! ## 5. no_store_bypasses_all -/
 
@@ -386,6 +557,21 @@ theorem no_store_bypasses_all {cfg : Config} (hmb : cfg.maxBytes < 2 ^ 63) {g : 
     · rw [hn] at hns; cases hns
     · rw [ho, hd]; exact ⟨rfl, hr⟩
 
+def exNoStore : G := run exCfg (G.init 100 100 [exReq [47, 97] [65, 66] false [], exReq [47, 97] [67] false (b "NO-STORE")]) (steps 0 8 ++ steps 1 8)
+example : (exNoStore.threads[1]?.getD default).out = some (passThrough .absent (exReq [47, 97] [67] false (b "NO-STORE")).resp) ∧
+    (exNoStore.threads[1]?.getD default).ran = true :=
+  (no_store_bypasses_all exCfg_mb ⟨_, _, _, _, rfl⟩ 1 _ (getElem?_getD_default (by decide)) (by decide)).2 (by decide)
+
+/-- the same for the RFC 9111 reading of the header -/
+theorem rfc_no_store_bypasses_all {cfg : Config} (hmb : cfg.maxBytes < 2 ^ 63) {g : G} (h : Reachable cfg g)
+    (t : Nat) (th : Thread) (ht : g.threads[t]? = some th) (hns : isNoStoreReq th.req.cc = true) :
+    (∀ g', step cfg g t = some g' → g'.sh.store = g.sh.store ∧ g'.sh.heap = g.sh.heap ∧ g'.sh.stored = g.sh.stored ∧
+        g'.mux = g.mux) ∧
+    (th.pc = .done → th.out = some (passThrough .absent th.req.resp) ∧ th.ran = true) :=
+  no_store_bypasses_all hmb h t th ht (directive_implies_substring hns)
+
+example : isNoStoreReq (b "No-Store, max-age=0") = true := by decide
+
 /-! ## 6. only_cacheable_stored -/
 
 /-- Whatever the storage holds was produced by a finished request whose status is in the
@@ -400,6 +586,14 @@ theorem only_cacheable_stored {cfg : Config} (hmb : cfg.maxBytes < 2 ^ 63) {g : 
   rw [hit]
   exact ⟨hst.2.2.2.2.1, u, thu, hu, hk, hst.2.2.2.1.2.2, hst.2.2.2.1.2.1, hst.2.2.2.1.1, rfl, rfl⟩
 
+set_option maxRecDepth 20000 in
+example : ∃ k sl, exConc.sh.store.lookup k = some sl ∧ cacheable sl.item.status = true :=
+  ⟨mkKey (exReq [47, 97] [72] false []), (exConc.sh.store.lookup (mkKey (exReq [47, 97] [72] false []))).getD default,
+   some_getD_default (by decide),
+   (only_cacheable_stored exCfg_mb exConc_reach _ _ (some_getD_default (by decide))).1⟩
+-- a response with status 500 is passed through and nothing is stored
+example : (run exCfg (G.init 100 100 [exReqS 500 [47, 97] [65] false []]) (steps 0 8)).sh.store = [] := by decide
+
 /-- the regenerated status table contains only statuses the spec allows a cache to store (RFC 9110
     §15.1 heuristically cacheable, plus 418 which fiber adds) -/
 theorem cacheable_table_sound : ∀ s ∈ Facts.cacheableStatusCodes, specCacheable s = true := by
@@ -413,37 +607,5 @@ theorem cacheable_implies_spec (s : Nat) (h : cacheable s = true) : specCacheabl
     after `mux.Lock()`, and `heap.remove` is called with the key to check -/
 theorem facts_get_under_lock : Facts.getUnderLock = true := by decide
 theorem facts_remove_checks_key : Facts.removeChecksKey = true := by decide
-
-/-! ## non-vacuity: concrete reachable states (the hypotheses of the theorems above are met) -/
-
-def exCfg : Config :=
-  { ext := true, stTTL := true, maxBytes := 5, expiration := 2, storeHeaders := true, cacheControl := false, methods := [] }
-def exReq (key body : Bytes) (inv : Bool) (cc : Bytes) : Req :=
-  { method := b "GET", keyMat := key, cc := cc, inv := inv, skip := false, expGen := none,
-    resp := ⟨200, body, b "text/plain", [], [(b "X-A", b "1"), (b "Keep-Alive", b "5")]⟩ }
-def steps (t n : Nat) : List Ev := List.replicate n (.step t)
-
-/-- sequential: miss, hit (transparent, stored headers without the ignored one), then expiry → miss -/
-def exSeq : G := run exCfg (G.init 100 100 [exReq [47, 97] [65, 66] false [], exReq [47, 97] [67] false [], exReq [47, 97] [68] false []])
-  (steps 0 8 ++ [.tickTs 1, .tickUts 1] ++ steps 1 8 ++ [.tickTs 1] ++ steps 2 8)
-example : Reachable exCfg exSeq := ⟨_, _, _, _, rfl⟩
-example : (exSeq.threads.map fun th => th.out.map fun o => (o.xcache, o.body, o.headers.length)) =
-    [some (.miss, [65, 66], 2), some (.hit, [65, 66], 1), some (.miss, [68], 2)] := by decide
-example : exSeq.sh.stored = 1 ∧ exSeq.sh.heap.live.length = 1 := by decide
-
-/-- interleaved: both requests miss (A: lookup, B: lookup, A: store, B: store), the second store finds a
-    full cache and evicts; a third request with the invalidator firing deletes the entry; a fourth,
-    `No-Cache`, request is not served from the cache -/
-def exConc : G := run exCfg (G.init 100 100 [exReq [47, 97] [65, 66, 67] false [], exReq [47, 97] [68, 69, 70] false [],
-    exReq [47, 97] [71] true [], exReq [47, 97] [72] false (b "No-Cache")])
-  (steps 0 3 ++ steps 1 3 ++ steps 0 5 ++ steps 1 5 ++ steps 2 8 ++ steps 3 8)
-set_option maxRecDepth 20000 in
-example : (exConc.threads.map fun th => th.out.map fun o => (o.xcache, o.body)) =
-    [some (.miss, [65, 66, 67]), some (.miss, [68, 69, 70]), some (.miss, [71]), some (.miss, [72])] := by decide
-set_option maxRecDepth 20000 in
-example : exConc.sh.stored = 2 ∧ exConc.sh.heap.live.length = 2 ∧ exConc.sh.store.length = 1 := by decide
-/-- a thread waiting for the mutex is disabled while another one is inside the section -/
-example : (step exCfg (run exCfg (G.init 100 100 [exReq [47, 97] [65] false [], exReq [47, 97] [66] false []])
-    (steps 0 2 ++ steps 1 1)) 1).isSome = false := by decide
 
 end C14
